@@ -179,6 +179,16 @@ def decode(enc):
         return np.array(enc[1], dtype=np.dtype(enc[2] if len(enc) > 2 else "int64"))
     if t == "idx_list":
         return [int(x) for x in enc[1]]
+    if t == "idx_series":
+        import pandas as pd
+
+        return pd.Series([int(x) for x in enc[1]], dtype="int64")
+    if t == "idx_index":
+        import pandas as pd
+
+        return pd.Index([int(x) for x in enc[1]], dtype="int64")
+    if t == "idx_range":
+        return range(*enc[1])
     if t == "tuple":
         return tuple(decode(e) for e in enc[1])
     if t == "ellipsis":
@@ -246,8 +256,8 @@ def expect_1d(enc, n):
         if not sel:
             return Exp(EITHER, t + "_empty", mode="hist", sel=sel)
         return Exp(MUST_SUCCEED if t == "mask" else EITHER, t, mode="hist", sel=sel, missed="free" if contiguous(sel) else "nan")
-    if t in ("idx", "idx_list"):
-        vals = list(enc[1])
+    if t in ("idx", "idx_list", "idx_series", "idx_index", "idx_range"):
+        vals = list(range(*enc[1])) if t == "idx_range" else list(enc[1])
         if any(not -n <= v < n for v in vals):
             return Exp(MUST_RAISE, t + "_oob", reason="out_of_range")
         norm = [v % n for v in vals]
@@ -613,6 +623,8 @@ def exprs_1d(n):
             out.append(["idx", [v - n if neg else v for v, neg in zip(s, signs)], "int64"])
         out.append(["idx_list", list(s)])
         if s:
+            out.append(["idx_series", list(s)])
+            out.append(["idx_index", list(s)])
             out.append(["idx", list(s), "int32"])
             out.append(["idx", list(s), "uint8"])
             out.append(["idx", [v - n for v in s], "int8"])
@@ -623,6 +635,8 @@ def exprs_1d(n):
                 if list(perm) != list(s):
                     out.append(["idx", list(perm), "int64"])
             out.append(["idx_list", list(reversed(s))])
+            out.append(["idx_series", list(reversed(s))])
+            out.append(["idx_index", list(reversed(s))])
             out.append(["idx", [s[-1] - n] + list(s[:-1]), "int64"])
         elif len(s) > 3:
             out.append(["idx", list(reversed(s)), "int64"])
@@ -632,6 +646,7 @@ def exprs_1d(n):
         out.append(["idx", [i, i], "int64"])
         out.append(["idx", [i, i - n], "int64"])
         out.append(["idx_list", [i, i]])
+        out.append(["idx_index", [i, i]])
         for j in range(n):
             if j != i:
                 out.append(["idx", sorted([i, i, j]), "int64"])
@@ -640,6 +655,12 @@ def exprs_1d(n):
     for bad in ([n], [-n - 1], [0, n], [n + 5], [-n - 1, 0], [0, -2 * n - 1]):
         out.append(["idx", bad, "int64"])
         out.append(["idx_list", bad])
+    # ranges: forward, every second, backward
+    if n:
+        out.append(["idx_range", [0, n, 1]])
+        out.append(["idx_range", [0, n, 2]])
+        out.append(["idx_range", [n - 1, -1, -1]])
+        out.append(["idx_range", [n - 1, -1, -2]])
     # tuples, ellipsis
     out.append(["ellipsis"])
     out.append(["tuple", []])
